@@ -70,36 +70,5 @@ Definition list_decoder_exact (dec : list Z -> res (list (list Z))) (inp : list 
 Definition graceful {A} (r : res A) : Prop :=
   match r with Ok _ => True | Err UserOther => True | Err _ => False end.
 
-(* ---- the inputs on which the implementation is known to crash (guards of the partial theorems) ---- *)
-
-(* value of a big-endian digit string *)
-Definition be_val (l : list Z) : Z := fold_left (fun a b => a * 256 + b) l 0.
-
-(* an 8-byte length field without leading zero whose value, added to the position just after it,
-   exceeds the largest Go int *)
-Definition huge_len_at (pos : Z) (l : list Z) : Prop :=
-  blen l = 8 /\ (forall b r, l = b :: r -> b <> 0) /\ be_val l <= 2 ^ 63 - 1 /\ 2 ^ 63 <= pos + be_val l.
-
-(* RLP.decodeString crashes exactly on these inputs *)
-Definition string_crash (inp : list Z) : Prop :=
-  inp = [129] \/
-  exists l rest, inp = 191 :: l ++ rest /\ huge_len_at 9 l.
-
-(* some position of the input carries a long-form prefix (0xbf / 0xff) with such a length field *)
-Definition has_huge_len (inp : list Z) : Prop :=
-  exists pre b l rest, inp = pre ++ b :: l ++ rest /\ (b = 191 \/ b = 255) /\
-    huge_len_at (blen pre + 9) l.
-Definition no_huge_len (inp : list Z) : Prop := ~ has_huge_len inp.
-
-(* the one non-canonical item form the implementation lets through inside a list: a single byte
-   below 0x80 written with the prefix 0x81 (rejected by RLP.decodeString, by go-ethereum, and by the
-   canonical-form rule 1 quoted in ReadSize's own documentation) *)
+(* the non-canonical two-byte form of a single byte below 0x80: prefix 0x81 followed by the byte *)
 Definition item_nc1 (it : list Z) : Prop := exists x, 0 <= x < 128 /\ it = [129; x].
-
-(* what RLP.decodeList accepts: *)
-Definition accepted_list (inp : list Z) (items : list (list Z)) : Prop :=
-  Forall (fun it => item_ok it \/ item_nc1 it) items /\ inp = list_frame (concat items).
-
-Definition list_decoder_accepts (dec : list Z -> res (list (list Z))) (inp : list Z) : Prop :=
-  (exists items, accepted_list inp items /\ dec inp = Ok items) \/
-  ((forall items, ~ accepted_list inp items) /\ dec inp = Err UserOther).
